@@ -343,7 +343,7 @@ pub fn run(ctx: &Ctx, st: &mut Stats) {
             6 => C::ab(K::OraDt, (a.div_euclid(1_000_000) * 1_000_000).min(ORA_MAX), rng.range_i64(-400 * DAY_US, 400 * DAY_US)),
             _ => C::ab(K::DateDt, day, rng.range_i64(TS_MIN - TS_MAX, TS_MAX - TS_MIN)),
         };
-        st.eval_h(c.hash(c.k as u64 + 70), &c, check);
+        { let (an, td, ks) = crate::primers::g_context(c.a, c.b); crate::primers::eval_sched(st, rng, c.hash(c.k as u64 + 70), &c, &an, td, &ks, check); }
     });
 }
 
